@@ -118,8 +118,9 @@ def register(reg, repo):
               requires=["gen is not None"],
               post=GEN_POST + ["result is not _none"], xpost=GEN_X, note="generator.throw(type, value[, tb])"))
     reg.add(C("env.gen.close", params=["gen"], kind="method", modifies="*", trusted=True,
-              requires=["gen is not None"], post=[OWNER_KEPT], xpost=None,
-              note="generator.close(): finally/with blocks of the body run; assumed not to raise and not to complete the task that owns the generator"))
+              requires=["gen is not None"], post=[OWNER_KEPT], xpost=[OWNER_KEPT, "isinstance(exc, Exception)"],
+              note="generator.close(): finally/with blocks of the body run and may raise any Exception (BaseException from cleanup code is "
+                   "treated as fatal and not modelled); assumed not to complete the task that owns the generator"))
     reg.add(C("env.ctx.pause", params=["ctx"], kind="method", modifies="*", trusted=True,
               post=["ctx.$n_pause == old(ctx.$n_pause) + 1",
                     "all(implies(old(alloc(t)), task_frozen(t)) for t in objs(AsyncTask))"],
@@ -198,16 +199,35 @@ def register(reg, repo):
               post=[NOTIF, FROZEN, "self._generator is None", "len(self._dependencies) == 0", "self._last_value is None"],
               xpost=None,
               labels={"ts_skip": ("notif",)}))
-    reg.add(C(T + "collect_perf_stats", modifies=["perf_stats"], post=[], xpost=None, trusted=True,
-              note="profiling only (C20 erase)"))
-    reg.add(C(T + "dump_perf_stats", modifies=["stats_log"], post=[], xpost=None, trusted=True,
-              note="profiling sink: writes the task's own perf_stats dict and the profiler buffer (diagnostic footprint, C20)"))
+    reg.add(C(T + "to_str!virtual", params=["self"], kind="method", modifies=["_name"], trusted=True, post=[], xpost=None,
+              returns_type="str", note="name of a dependency (AsyncTask.to_str / BatchItemBase.to_str, both under contract: never raise)"))
+    reg.add(C(T + "collect_perf_stats", modifies=["perf_stats", "_name", "$alloc", "$llen", "$litem", "$dhas", "$dget", "$olen", "$okey", "$oval"],
+              types={"t": "FutureBase"}, calls={"t.to_str": T + "to_str!virtual"},
+              post=["fresh(self.perf_stats)"], xpost=None,
+              invariants={1: ["_it1 is self._dependencies", "exact(_c1, list)", "fresh(_c1)",
+                              "len(self._dependencies) == old(len(self._dependencies))",
+                              "all(self._dependencies[j] is old(self._dependencies[j]) for j in range(0, len(self._dependencies)))",
+                              "inv()", "two_state('old')"]},
+              labels={"loop_mutates": {1: ["_c1"]}, ("xpost", 0): "profiling-never-raises",
+                      },
+              note="COLLECT_PERF_STATS only: builds the task's statistics record; must not fail or touch anything a program observes"))
+    reg.add(C(T + "dump_perf_stats", modifies=["stats_log", "$dhas", "$dget", "$olen", "$okey", "$oval", "$llen", "$litem"],
+              assumes=["exact(self.perf_stats, dict)", "alloc(self.perf_stats)",
+                       "all(t._contexts is not self.perf_stats for t in objs(AsyncTask))"],
+              calls={"profiler.append": "profiler.append"},
+              post=["only(self.perf_stats, '$dhas', '$dget', '$olen', '$okey', '$oval')"], xpost=None,
+              labels={("xpost", 0): "profiling-never-raises"},
+              note="profiling sink: writes the task's own perf_stats dict and the profiler buffer (diagnostic footprint, C20); assumes the "
+                   "record exists, i.e. COLLECT_PERF_STATS was already on when the task completed (options are not toggled while tasks are alive)"))
+    reg.field_types[("AsyncTask", "perf_stats")] = "dict"
 
     reg.add(C(T + "_queue_exit", modifies="*",
               calls={"self._generator.close": "env.gen.close"},
               post=["not old(computed(self))", "computed(self)", "self._value is result or computed(old(self))",
                     "self._generator is None"],
-              requires=["result is not _none", "self.running == False"],
+              requires=["result is not _none", "self.running == False",
+                        # every call site is in _continue after the generator has terminated (its close() branch is then dead)
+                        "self._generator is None"],
               xpost=["old(computed(self))", "isinstance(exc, FutureIsAlreadyComputed)", "no_callout()"]))
 
     reg.add(C(T + "_queue_throw_error", modifies="*", requires=["self.running == False"],
@@ -227,7 +247,15 @@ def register(reg, repo):
               post=["self._last_value is result", "self._dependencies is old(self._dependencies)",
                     "len(self._dependencies) >= old(len(self._dependencies))",
                     "implies(result is None, len(self._dependencies) == old(len(self._dependencies)))",
-                    "only(self, '_last_value')", "only(self._dependencies, '$llen', '$litem')"],
+                    "only(self, '_last_value')", "only(self._dependencies, '$llen', '$litem')",
+                    "len(self._dependencies) == old(len(self._dependencies)) + EFN(result)",
+                    "all(self._dependencies[j] is old(self._dependencies[j]) for j in range(0, old(len(self._dependencies))))",
+                    "all(Leaf(result, self._dependencies[j]) for j in range(old(len(self._dependencies)), len(self._dependencies)))",
+                    "all(implies(Leaf(result, f), any(self._dependencies[j] is f for j in range(old(len(self._dependencies)), "
+                    "len(self._dependencies)))) for f in vals())"],
+              labels={("post", 6): "one-dependency-per-future-occurrence", ("post", 7): "earlier-dependencies-untouched",
+                      ("post", 8): "only-futures-inside-the-yielded-value-become-dependencies",
+                      ("post", 9): "every-future-inside-the-yielded-value-becomes-a-dependency"},
               xpost=None))
 
     RU = z3.Function("R_unwrap", V, V, z3.BoolSort())
@@ -237,6 +265,7 @@ def register(reg, repo):
 
     STEP = "callcount('env.gen.send') + callcount('env.gen.throw')"
     _late.append(register_unwrap)
+    _late.append(register_extract)
     reg.add(C(T + "_continue_on_generator", modifies="*",
               requires=["not computed(self)", "self.running == False", "error is None or wellformed_exc(error)"],
               calls={"self._generator.send": "env.gen.send", "self._generator.throw": "env.gen.throw",
@@ -385,3 +414,150 @@ def register_unwrap(reg, repo):
                       "inv()", "two_state('old')"]},
               note="E: a yielded list/dict is not mutated while it is being unwrapped (loop invariants 2/3 state it; unknown code running "
                    "inside future.value() could in principle mutate it: listed assumption via the invariants' frame clauses)"))
+
+
+def register_extract(reg, repo):
+    """Body contract of extract_futures.  Specification symbols (heap-free, uninterpreted):
+        Leaf(v, f)   f is a future occurring inside v (v itself, or inside a tuple/list member or dict value of v)
+        EFN(v)       how many futures the scan of v appends (occurrences, not distinct futures)
+        EFS(v, i)    suffix sums over a tuple/list: EFN(v[i]) + ... + EFN(v[len-1])
+        EFP(v, i)    prefix sums over the values of a dict: EFN(val_0) + ... + EFN(val_{i-1})
+    EF_def() states their one-level unfoldings in the current heap; it is assumed at entry of every (recursive)
+    activation -- the scanned structure is a finite tree/DAG of containers that is not mutated during the scan and does not
+    contain the accumulator list.  The contract states, for one level: how many elements are appended, that the old
+    prefix is untouched, that exactly the futures inside `value` are appended (soundness and completeness), and where
+    the segment of every member lies (members right-to-left for tuples/lists, values left-to-right for dicts).
+    Order at depth follows by induction over the nesting (not mechanised; the bounded stand-in `structures` checks the
+    composed order to depth 3)."""
+    import z3
+    from pyvc import smt
+    from pyvc.smt import V
+    from pyvc.state import fresh_name
+    from pyvc.contract import Contract as C
+    LEAF = z3.Function("EF_Leaf", V, V, z3.BoolSort())
+    EFN = z3.Function("EF_N", V, z3.IntSort())
+    EFS = z3.Function("EF_S", V, z3.IntSort(), z3.IntSort())
+    EFP = z3.Function("EF_P", V, z3.IntSort(), z3.IntSort())
+    from pyvc.spec import as_int, as_v
+    reg.pyfuncs["Leaf"] = lambda env, v, f: LEAF(as_v(v), as_v(f))
+    reg.pyfuncs["EFN"] = lambda env, v: EFN(as_v(v))
+    reg.pyfuncs["EFS"] = lambda env, v, i: EFS(as_v(v), as_int(i))
+    reg.pyfuncs["EFP"] = lambda env, v, i: EFP(as_v(v), as_int(i))
+
+    def ef_def(env, v):
+        """one-level unfolding of Leaf / EFN / EFS / EFP at the object v in the current heap (not quantified over v: a
+        quantified elimination rule re-triggers itself on its own Skolem terms)"""
+        h = env.heap
+        eng = env.eng
+        v = as_v(v)
+        f, x = z3.Const(fresh_name("f!ef"), V), z3.Const(fresh_name("x!ef"), V)
+        i = z3.Int(fresh_name("i!ef"))
+        isf = eng.isinstance_f(v, [eng.ct.cls("FutureBase")])
+        tup = smt.typeof(v) == eng.ct.cls("tuple")
+        lst = smt.typeof(v) == eng.ct.cls("list")
+        dct = smt.typeof(v) == eng.ct.cls("dict")
+        ll = h.sel("$llen", v)
+        li = lambda k: z3.Select(h.sel("$litem", v), k)
+        ol = h.sel("$olen", v)
+        ov = lambda k: z3.Select(h.sel("$oval", v), k)
+        tl = smt.tlen(v)
+        ti = lambda k: smt.titem(v, k)
+        other = z3.And(z3.Not(isf), z3.Not(tup), z3.Not(lst), z3.Not(dct))
+        ax = [
+            # Leaf(v, .)
+            z3.Implies(isf, z3.ForAll([f], LEAF(v, f) == (f == v), patterns=[LEAF(v, f)])),
+            z3.Implies(other, z3.ForAll([f], z3.Not(LEAF(v, f)), patterns=[LEAF(v, f)])),
+            z3.Implies(tup, z3.And(
+                z3.ForAll([f, i], z3.Implies(z3.And(0 <= i, i < tl, LEAF(ti(i), f)), LEAF(v, f)), patterns=[LEAF(ti(i), f)]),
+                z3.ForAll([f], z3.Implies(LEAF(v, f), z3.Exists([i], z3.And(0 <= i, i < tl, LEAF(ti(i), f)))), patterns=[LEAF(v, f)]))),
+            z3.Implies(lst, z3.And(
+                z3.ForAll([f, i], z3.Implies(z3.And(0 <= i, i < ll, LEAF(li(i), f)), LEAF(v, f)), patterns=[LEAF(li(i), f)]),
+                z3.ForAll([f], z3.Implies(LEAF(v, f), z3.Exists([i], z3.And(0 <= i, i < ll, LEAF(li(i), f)))), patterns=[LEAF(v, f)]))),
+            z3.Implies(dct, z3.And(
+                z3.ForAll([f, i], z3.Implies(z3.And(0 <= i, i < ol, LEAF(ov(i), f)), LEAF(v, f)), patterns=[LEAF(ov(i), f)]),
+                z3.ForAll([f], z3.Implies(LEAF(v, f), z3.Exists([i], z3.And(0 <= i, i < ol, LEAF(ov(i), f)))), patterns=[LEAF(v, f)]))),
+            # counts
+            z3.ForAll([x], EFN(x) >= 0, patterns=[EFN(x)]),
+            z3.Implies(isf, EFN(v) == 1), z3.Implies(other, EFN(v) == 0),
+            z3.Implies(tup, z3.And(EFN(v) == EFS(v, 0), EFS(v, tl) == 0,
+                                   z3.ForAll([i], z3.Implies(z3.And(0 <= i, i < tl), EFS(v, i) == EFN(ti(i)) + EFS(v, i + 1)),
+                                             patterns=[z3.MultiPattern(EFS(v, i), ti(i))]),
+                                   z3.ForAll([i], z3.Implies(z3.And(0 <= i, i <= tl), EFS(v, i) >= 0), patterns=[EFS(v, i)]))),
+            z3.Implies(lst, z3.And(EFN(v) == EFS(v, 0), EFS(v, ll) == 0,
+                                   z3.ForAll([i], z3.Implies(z3.And(0 <= i, i < ll), EFS(v, i) == EFN(li(i)) + EFS(v, i + 1)),
+                                             patterns=[z3.MultiPattern(EFS(v, i), li(i))]),
+                                   z3.ForAll([i], z3.Implies(z3.And(0 <= i, i <= ll), EFS(v, i) >= 0), patterns=[EFS(v, i)]))),
+            z3.Implies(dct, z3.And(EFN(v) == EFP(v, ol), EFP(v, 0) == 0,
+                                   z3.ForAll([i], z3.Implies(z3.And(0 <= i, i < ol), EFP(v, i + 1) == EFP(v, i) + EFN(ov(i))),
+                                             patterns=[z3.MultiPattern(EFP(v, i), ov(i))]),
+                                   z3.ForAll([i], z3.Implies(z3.And(0 <= i, i <= ol), EFP(v, i) >= 0), patterns=[EFP(v, i)]))),
+        ]
+        return z3.And(*ax)
+    reg.pyfuncs["EF_def"] = ef_def
+
+    old = reg.contracts.pop("async_task.extract_futures")
+    SEG_T = ("all(all(Leaf(titem(value, k), result[j]) for j in range(N0 + EFS(value, k + 1), N0 + EFS(value, k))) and "
+             "all(implies(Leaf(titem(value, k), f), any(result[j] is f for j in range(N0 + EFS(value, k + 1), N0 + EFS(value, k)))) for f in vals()) "
+             "for k in range(LO, tlen(value)))")
+    SEG_L = SEG_T.replace("titem(value, k)", "value[k]").replace("tlen(value)", "len(value)")
+    SEG_D = ("all(all(Leaf(oval(value, k), result[j]) for j in range(N0 + EFP(value, k), N0 + EFP(value, k + 1))) and "
+             "all(implies(Leaf(oval(value, k), f), any(result[j] is f for j in range(N0 + EFP(value, k), N0 + EFP(value, k + 1)))) for f in vals()) "
+             "for k in range(0, HI))")
+    n0 = "old(len(result))"
+    FRAME = ["exact(result, list)", "len(result) >= old(len(result))",
+             "all(result[j] is old(result[j]) for j in range(0, old(len(result))))",
+             "only(result, '$llen', '$litem')"]
+    SOUND = "all(Leaf(value, result[j]) and alloc(result[j]) and isinstance(result[j], FutureBase) for j in range(old(len(result)), len(result)))"
+    reg.add(C("async_task.extract_futures", params=["value", "result"], modifies=["$llen", "$litem"],
+              requires=["exact(result, list)", "alloc(result)",
+                        "all(b.items is not result for b in objs(BatchBase))",
+                        "all(s._tasks is not result for s in objs(TaskScheduler))",
+                        "all(implies(t._dependencies is result, t.running == False and t.$n_notified == 0) for t in objs(AsyncTask))"],
+              assumes=["EF_def(value)", "value is not result",
+                       "implies(isinstance(value, FutureBase), alloc(value))"],
+              types={"result": "list"},
+              post=["retval is result",
+                    "len(result) == old(len(result)) + EFN(value)"] + FRAME + [
+                    SOUND,
+                    "all(implies(Leaf(value, f), any(result[j] is f for j in range(old(len(result)), len(result)))) for f in vals())",
+                    "implies(exact(value, tuple), " + SEG_T.replace("N0", n0).replace("LO", "0") + ")",
+                    "implies(exact(value, list), " + SEG_L.replace("N0", n0).replace("LO", "0") + ")",
+                    "implies(exact(value, dict), " + SEG_D.replace("N0", n0).replace("HI", "olen(value)") + ")",
+                    "implies(value is None, len(result) == old(len(result)))"],
+              xpost=None,
+              invariants={
+                  1: ["exact(result, list)", "alloc(result)", "int(i) >= -1",
+                      "implies(exact(value, tuple), int(i) < tlen(value))", "implies(exact(value, list), int(i) < len(value))",
+                      "exact(value, tuple) or exact(value, list)",
+                      "len(result) == old(len(result)) + EFS(value, int(i) + 1)",
+                      "all(result[j] is old(result[j]) for j in range(0, old(len(result))))",
+                      "implies(exact(value, list), len(value) == old(len(value)) and all(value[k] is old(value[k]) for k in range(0, len(value))))",
+                      SOUND,
+                      "implies(exact(value, tuple), " + SEG_T.replace("N0", n0).replace("LO", "int(i) + 1") + ")",
+                      "implies(exact(value, list), " + SEG_L.replace("N0", n0).replace("LO", "int(i) + 1") + ")",
+                      # the segments already written lie below the current end (EFS is antitone; proved step by step)
+                      "implies(exact(value, tuple), all(EFS(value, k) <= EFS(value, int(i) + 1) for k in range(int(i) + 1, tlen(value) + 1)))",
+                      "implies(exact(value, list), all(EFS(value, k) <= EFS(value, int(i) + 1) for k in range(int(i) + 1, len(value) + 1)))",
+                      "implies(exact(value, tuple), all(all(implies(Leaf(titem(value, k), f), any(result[j] is f for j in range(old(len(result)), len(result)))) "
+                      "for f in vals()) for k in range(int(i) + 1, tlen(value))))",
+                      "implies(exact(value, list), all(all(implies(Leaf(value[k], f), any(result[j] is f for j in range(old(len(result)), len(result)))) "
+                      "for f in vals()) for k in range(int(i) + 1, len(value))))",
+                      "only(result, '$llen', '$litem')", "inv()", "two_state('old')"],
+                  2: ["exact(result, list)", "alloc(result)", "_it2 is value", "exact(value, dict)", "int(_i2) <= olen(value)",
+                      "len(result) == old(len(result)) + EFP(value, int(_i2))",
+                      "all(result[j] is old(result[j]) for j in range(0, old(len(result))))",
+                      SOUND,
+                      SEG_D.replace("N0", n0).replace("HI", "int(_i2)"),
+                      "all(EFP(value, k) <= EFP(value, int(_i2)) for k in range(0, int(_i2) + 1))",
+                      "all(all(implies(Leaf(oval(value, k), f), any(result[j] is f for j in range(old(len(result)), len(result)))) "
+                      "for f in vals()) for k in range(0, int(_i2)))",
+                      "int(_i2) >= 0", "olen(value) == old(olen(value))",
+                      "all(oval(value, k) is old(oval(value, k)) for k in range(0, olen(value)))",
+                      "only(result, '$llen', '$litem')", "inv()", "two_state('old')"]},
+              labels={"loop_mutates": {1: ["result"], 2: ["result"]},
+                      ("post", 1): "appends-one-entry-per-future-occurrence", ("post", 4): "old-entries-untouched",
+                      ("post", 6): "only-futures-inside-the-value-are-appended", ("post", 7): "every-future-inside-the-value-is-appended",
+                      ("post", 8): "tuple-members-right-to-left", ("post", 9): "list-members-right-to-left",
+                      ("post", 10): "dict-values-left-to-right", ("post", 11): "none-appends-nothing"},
+              note="E: the scanned structure is a finite acyclic nest of tuples/lists/dicts, is not mutated during the scan and does "
+                   "not contain the accumulator list (assumes EF_def(), value is not result); RecursionError on deep nests is outside the model"))
